@@ -86,7 +86,7 @@ def to_form(A, form):
 
 def big_graphs(tier):
     """Sparse connected graphs on 5-7 vertices (atlas) and disconnected unions of them with a small part."""
-    a = mgh.atlas(5, 2) + mgh.atlas(6, 3) + mgh.atlas(7, 0 if tier == "quick" else 1)
+    a = mgh.atlas(5, 2) + mgh.atlas(6, 3) + mgh.atlas(7, 1)
     out = list(a)
     for g in a[:: 4]:
         n = len(g)
